@@ -22,7 +22,7 @@ Lemma harmless_app bad t1 t2 : harmless bad t1 -> harmless bad t2 -> harmless ba
 Proof. unfold harmless. intros. apply Forall_app. split; assumption. Qed.
 
 Section Sound.
-  Variable bad : ekind -> bool.
+  Variable bad : ekind -> nat -> bool.
   Variable p : prog.
   Variable S : list ctx.
   Hypothesis Hclosed : closed_ok bad p S = true.
@@ -90,6 +90,15 @@ Proof.
   unfold safe_from. intros H tr He.
   apply andb_true_iff in H as [Hm Hc].
   eapply closed_sound; eauto. apply mem_ctx_In. exact Hm.
+Qed.
+
+(* the same for a list of entry points, all entered with the same flag value *)
+Theorem entries_sound bad p d entries :
+  forallb (fun f => safe_from bad p (f, d)) entries = true ->
+  forall f, In f entries -> forall tr, exec p d (body_of p f) tr -> harmless bad tr.
+Proof.
+  intros H f Hin. apply safe_from_sound.
+  rewrite forallb_forall in H. apply (H f Hin).
 Qed.
 
 (* ---- non-vacuity on small programs -------------------------------------------------------- *)
